@@ -50,7 +50,7 @@ def gen_cases(rng, tier):
         sensitive = rng.random() < 0.3
         cfg = cfg_for(rng, sensitive)
         h = []
-        kind = rng.choice(['simple', 'simple', 'held-across', 'nested', 'recursive', 'switch-record', 'rerecord', 'limit', 'empty', 'random', 'record-key-held', 'truncate-held'])
+        kind = rng.choice(['simple', 'simple', 'held-across', 'nested', 'recursive', 'switch-record', 'rerecord', 'limit', 'empty', 'random', 'record-key-held', 'truncate-held', 'boundary-repress'])
         single = rng.random() < 0.7      # at most one typing key down at a time: the order of the final releases is then determined
         def ty_(n, hold_across=False):
             return typing(rng, n, hold_across, single)
@@ -104,6 +104,12 @@ def gen_cases(rng, tier):
             k = rng.choice(['a', 's', 'd'])
             k2 = rng.choice(['f', 'a'])
             h = tap('g') + ty + ['d%d' % C[k], 't3'] + (tap(k2) if k2 != k and rng.random() < 0.6 else []) + tap('l') + ['t5', 'u%d' % C[k], 't5'] + tap('j') + ['t900']
+        elif kind == 'boundary-repress':
+            # a key that is down when recording starts, let go and pressed again during the recording, still down when it stops
+            k = rng.choice(['a', 's', 'd'])
+            ty, _ = ty_(rng.randint(0, 2))
+            ty = [t for t in ty if t[1:] != str(C[k])]
+            h = ['d%d' % C[k], 't5'] + tap('g') + ['u%d' % C[k], 't3'] + ty + ['d%d' % C[k], 't3'] + tap(rng.choice(['h', 'h', 'l'])) + ['t5', 'u%d' % C[k], 't5'] + tap('j') + ['t600']
         elif kind == 'empty':
             h = tap('g') + tap(rng.choice(['h', 'g', 'l'])) + tap('j') + ['t100'] + tap('h') + tap('j') + ['t100']
         else:
